@@ -12,8 +12,6 @@ import (
 	"flag"
 	"os"
 	"runtime"
-	"runtime/debug"
-	"strconv"
 
 	"verif/engine/core"
 )
@@ -140,11 +138,9 @@ func main() {
 	core.Main(&core.Check{
 		Init: func(tier string) {
 			if f := flag.Lookup("worker"); f != nil && f.Value.String() == "true" {
-				runtime.GOMAXPROCS(2)
-			}
-			// every case builds fresh runtimes: collect less often (memory is not scarce)
-			if g, err := strconv.Atoi(os.Getenv("VERIF_C11_GC")); err == nil {
-				debug.SetGCPercent(g)
+				// one mutator thread: coroutine hand-offs (goroutines in golua and in
+				// the reference) then never cross OS threads; measured 30% cheaper
+				runtime.GOMAXPROCS(1)
 			}
 			if os.Getenv("VERIF_C11_BENCH") != "" {
 				devBench(tier, families(tier))
